@@ -357,14 +357,14 @@ var pureItems = []pureItem{
 	// short reads is a parameter) and every piece leaves as one literal token; then the end-of-data token
 	{name: "sendFileLoop", file: "internal/sender/sender.go", fn: "sendFile",
 		from: "offset := 0", to: "if err := st.Conn.WriteInt32(0)",
-		params: []pvar{{"rest", "[]byte"}, {"sched", "[]int"}, {"out", "[]out"}},
+		params: []pvar{{"rest", "[]byte"}, {"sched", "[]int"}, {"eager", "bool"}, {"out", "[]out"}},
 		fuel:   []string{"rest.length + 1"},
-		drop:   []string{"if st.Opts.InfoGTE(rsyncopts.INFO_PROGRESS, 1)"},
+		drop:   []string{"if st.Opts.InfoGTE(rsyncopts.INFO_PROGRESS, 1)", "if err != nil && err != io.EOF", "if err2 != nil"},
 		replace: map[string]repl{
-			"n, err := f.Read(buf)":                           {"Go.bind (Go.readSome rest sched buf) fun (n, buf, rest, sched, eof) =>", []string{"buf", "rest", "sched"}, []pvar{{"n", "int"}, {"eof", "bool"}}},
-			"if err != nil~io.EOF":                            {"if eof then Go.Res.ok ($LOOP, false) else", nil, nil},
+			"n, err := f.Read(buf)":                           {"Go.bind (Go.readSome rest sched buf eager) fun (n, buf, rest, sched, eof) =>", []string{"buf", "rest", "sched"}, []pvar{{"n", "int"}, {"eof", "bool"}}},
+			"if err == io.EOF":                                {"if eof then Go.Res.ok ($LOOP, false) else", nil, nil},
 			"if err := st.Conn.WriteInt32(int32(len(chunk)))": {"let out := out ++ [Go.Out.i32 (Int32.ofInt (chunk.length : Int))];", []string{"out"}, nil},
-			"n, err = st.Conn.Writer.Write(chunk)":            {"let out := out ++ [Go.Out.bytes chunk];\nlet n : Int := (chunk.length : Int);", []string{"out", "n"}, nil},
+			"n, err2 := st.Conn.Writer.Write(chunk)":          {"let out := out ++ [Go.Out.bytes chunk];\nlet n : Int := (chunk.length : Int);", []string{"out"}, []pvar{{"n", "int"}}},
 			"if err := st.Conn.WriteInt32(0)":                 {"let out := out ++ [Go.Out.i32 0];", []string{"out"}, nil}},
 		results: []string{"out", "rest"}},
 	// receiver/generator.go generateAndSendSums: the basis file is read block by block (a byte list that is consumed),
